@@ -4,6 +4,7 @@ import PercevalModel.Model.C08Glue
 import PercevalModel.Model.C08Circ
 import PercevalModel.Model.C08Mix
 import PercevalModel.Model.C08Hist
+import PercevalModel.Model.C08Copy
 import PercevalModel.Lemmas.C08Fock
 import PercevalModel.Lemmas.C08Thr
 import PercevalModel.Found.SM
@@ -213,8 +214,51 @@ def histOp (j : Json) : Except String Json := do
     let outs := (SM.run (detectInstH fixed d) ⟨⟨[], []⟩, none⟩ ops).2
     return Json.mkObj [("outs", .arr (outs.map fun o => outToJson o.2).toArray)]
 
+/-- `{"op":"heap", ("wires":w|null,"max":k|null) | ("L":l,"r":q), "steps":[["detect",i,minp,n]|["copy",i]|["clear",i],…]}`
+— the family of copies of one detector (Model/C08Copy.lean).  Reply: per step the answer (`null` for copy/clear) and
+the heap after it: for every object the index of the dictionary its `_cache` is bound to, its `_cache_min_p`, and the
+sorted photon counts stored in that dictionary. -/
+def heapOp (j : Json) : Except String Json := do
+  let steps ← (← arrOf j "steps").toList.mapM fun e => do
+    match e with
+    | .arr #[.str "detect", i, p, n] => return HeapOp.detect (← i.getNat?) (← ratOfJson p) (← n.getNat?)
+    | .arr #[.str "copy", i] => return HeapOp.copy (← i.getNat?)
+    | .arr #[.str "clear", i] => return HeapOp.clear (← i.getNat?)
+    | _ => throw "bad step"
+  let render {M : Type} (h : Heap M ℚ) (o : Option (ℕ × DetOut ℚ)) : Json :=
+    let objs := (List.range h.nObjs).map fun i => h.objs i
+    Json.mkObj [("out", match o with | none => Json.null | some x => outToJson x.2),
+      ("cells", toJson (objs.map fun x => x.2.1)),
+      ("marks", .arr (objs.map fun x => match x.2.2 with | none => Json.null | some q => ratToJson q).toArray),
+      ("keys", toJson (objs.map fun x => ((h.cells x.2.1).map (·.1)).mergeSort))]
+  let drive {M : Type} (step : Heap M ℚ → HeapOp ℚ → Heap M ℚ × Option (ℕ × DetOut ℚ)) (h0 : Heap M ℚ) :
+      Except String Json := do
+    let mut h := h0
+    let mut acc : Array Json := #[]
+    for op in steps do
+      let idx := match op with | .detect i _ _ => i | .copy i => i | .clear i => i
+      if idx ≥ h.nObjs then throw "no such object"
+      let r := step h op
+      h := r.1
+      acc := acc.push (render h r.2)
+    return Json.mkObj [("steps", .arr acc)]
+  match j.getObjVal? "L" with
+  | .ok lj =>
+    let l ← lj.getNat?
+    let r ← ratOfJson (← j.getObjVal? "r")
+    let p ← mkBS l r
+    drive (bsHeapStep p.1 p.2) (Heap.init ())
+  | .error _ =>
+    let w ← optNat j "wires"
+    let mx ← optNat j "max"
+    let d ← mkDetector w mx
+    if steps.any (fun op => match op with | .clear _ => true | _ => false) then
+      throw "clear_cache: not a method of Detector"
+    drive (detHeapStep d) (Heap.init [])
+
 def handleReq (j : Json) : Except String Json := do
   let op ← strOf j "op"
+  if op == "heap" then return ← heapOp j
   if op == "hist" then return ← histOp j
   if op == "bscirc" then return ← bscirc j
   if op == "probsmix" then return ← probsMixOp j
